@@ -5,6 +5,7 @@ go 1.23.0
 require (
 	github.com/mikefarah/yq/v4 v4.0.0
 	github.com/yuin/gopher-lua v1.1.1
+	golang.org/x/text v0.23.0
 	gopkg.in/op/go-logging.v1 v1.0.0-20160211212156-b2cb9fa56473
 	gopkg.in/yaml.v3 v3.0.1
 )
@@ -24,7 +25,6 @@ require (
 	github.com/pelletier/go-toml/v2 v2.2.3 // indirect
 	golang.org/x/net v0.34.0 // indirect
 	golang.org/x/sys v0.29.0 // indirect
-	golang.org/x/text v0.23.0 // indirect
 )
 
 replace github.com/mikefarah/yq/v4 => /repo
